@@ -9,6 +9,7 @@ import (
 	"math/rand"
 	"strings"
 	"sync"
+	"syscall"
 	"testing"
 	"time"
 
@@ -33,7 +34,10 @@ type c16Case struct {
 	PerMs    float64 `json:"rate_ms_per_probe"`                  // 0: no --rate; else the send phase is stretched beyond the exit delay
 	VPN      bool    `json:"vpn"`
 	ErrLine  bool    `json:"targets_from_a_file_with_a_bad_last_line"` // a non-fatal error occurs during the scan: the delay still applies
-	Seed     int64   `json:"rand_seed"`
+	// after the last probe of each chunk the socket reports a receive error every so many ms (an interface that flaps):
+	// errors are logged, the delay is neither shortened nor restarted by them
+	RxErrMs int   `json:"receive_error_every_ms_during_the_delay,omitempty"`
+	Seed    int64 `json:"rand_seed"`
 }
 
 func c16Reply(kind string, eth bool, src uint32, port uint16) []byte {
@@ -128,6 +132,17 @@ func c16Check(c c16Case) *kit.Verdict {
 		mu.Lock()
 		lates = append(lates, l)
 		mu.Unlock()
+		if c.RxErrMs > 0 {
+			var tick func()
+			k := 0
+			tick = func() {
+				k++
+				if s.InjectReadError(fmt.Errorf("recvfrom: %w (receive error #%d)", syscall.ENETDOWN, k)) && k < 4000 {
+					w.After(time.Duration(c.RxErrMs)*time.Millisecond, tick)
+				}
+			}
+			w.After(time.Duration(c.RxErrMs)*time.Millisecond, tick)
+		}
 		w.After(time.Duration(float64(d)*c.LateFrac), func() {
 			ok := s.Inject(fr)
 			mu.Lock()
@@ -236,7 +251,7 @@ func c16Check(c c16Case) *kit.Verdict {
 func TestC16ExitDelay(t *testing.T) {
 	kit.Run(t, kit.Spec[c16Case]{
 		Prop: "C16",
-		Rule: "full packet-scan commands (arp, icmp, udp, tcp syn/fin/null/xmas/--flags; Ethernet and raw-IP; 1..450 single-port ranges => 1..3 chunks; optionally --rate so that the send phase lasts longer than the exit delay; optionally the targets come from a file whose last line is bad, so that a non-fatal error occurs during the scan) with --exit-delay 80..1200 ms; after the last probe of EVERY chunk a reply-shaped frame arrives at u*delay, u in [0,0.5]. Oracle: each late reply is delivered (socket still open) and reported (a missing record is discarded as inconclusive when a scheduler-lateness monitor saw a stall of more than delay/8 during the run); every chunk's socket stays open >= delay after its last probe; Execute() returns >= delay (one-sided, monotonic) and <= delay+10 s after the last probe; all printed lines are complete JSON. non-trivial: u > 0.05; distinct by case",
+		Rule: "full packet-scan commands (arp, icmp, udp, tcp syn/fin/null/xmas/--flags; Ethernet and raw-IP; 1..450 single-port ranges => 1..3 chunks; in a quarter of the cases the socket reports a receive error every 7..45 ms from the last probe of a chunk on; optionally --rate so that the send phase lasts longer than the exit delay; optionally the targets come from a file whose last line is bad, so that a non-fatal error occurs during the scan) with --exit-delay 80..1200 ms; after the last probe of EVERY chunk a reply-shaped frame arrives at u*delay, u in [0,0.5]. Oracle: each late reply is delivered (socket still open) and reported (a missing record is discarded as inconclusive when a scheduler-lateness monitor saw a stall of more than delay/8 during the run); every chunk's socket stays open >= delay after its last probe; Execute() returns >= delay (one-sided, monotonic) and <= delay+10 s after the last probe; all printed lines are complete JSON. non-trivial: u > 0.05; distinct by case",
 		Gen: func(t *rapid.T) c16Case {
 			c := c16Case{Cmd: rapid.SampledFrom(c01PacketCmds).Draw(t, "cmd"), Seed: rapid.Int64().Draw(t, "seed")}
 			c.ExitMs = rapid.SampledFrom([]int{80, 120, 200, 300, 500, 1200}).Draw(t, "exit")
@@ -255,6 +270,9 @@ func TestC16ExitDelay(t *testing.T) {
 				c.VPN = rapid.Bool().Draw(t, "vpn")
 			}
 			c.ErrLine = base != "arp" && rapid.IntRange(0, 3).Draw(t, "errline") == 0
+			if rapid.IntRange(0, 3).Draw(t, "rxerr") == 0 {
+				c.RxErrMs = rapid.SampledFrom([]int{7, 20, 45}).Draw(t, "rxerr-ms")
+			}
 			if rapid.IntRange(0, 2).Draw(t, "slow-send") == 0 && c.ExitMs <= 300 {
 				// stretch the send phase of (the first chunk of) the scan beyond the exit delay
 				n := (1 << uint(c.Addrs)) * max(1, min(c.NPorts, 200))
